@@ -55,6 +55,7 @@ type Projector struct {
 	Conn      int
 	stream    []byte
 	sslWait   int   // single-byte SSL replies still expected
+	encSeen   map[string]bool
 	lastCols  []any // oids of the last RowDescription (for decoding rows)
 	lastFmts  []any
 	ColOids   func() []int // optional: column oids of the running statement (extended protocol without Describe)
@@ -108,8 +109,8 @@ func (p *Projector) Feed(e mem.Ev) {
 		case "send":
 			if m := AsM(e["m"]); S(m, "t") == "Startup" && p.preMsg == nil {
 				p.preMsg = m
-			} else if S(m, "t") == "SSLRequest" && p.preMsg == nil {
-				p.sslWait++ // part of the preamble: its one-byte answer is not a protocol message
+			} else if (S(m, "t") == "SSLRequest" || S(m, "t") == "GSSENC") && p.preMsg == nil {
+				p.encRequest(S(m, "t")) // part of the preamble: its one-byte answer is not a protocol message
 			} else {
 				p.held = append(p.held, e) // pipelined behind the startup packet: belongs after the preamble
 			}
@@ -139,8 +140,8 @@ func (p *Projector) Feed(e mem.Ev) {
 	case "send":
 		m := AsM(e["m"])
 		switch S(m, "t") {
-		case "SSLRequest":
-			p.sslWait++
+		case "SSLRequest", "GSSENC":
+			p.encRequest(S(m, "t"))
 		case "P":
 			var oids []any
 			if sts := L(Sub(m, "q"), "stmts"); len(sts) == 1 {
@@ -210,6 +211,22 @@ func (p *Projector) Feed(e mem.Ev) {
 			p.Out = append(p.Out, c)
 		}
 	}
+}
+
+// encRequest: the client asked for an encrypted transport; the answer is one byte outside the message grammar.
+// For the grammar property (C02) there is ONE such byte per kind of request on a connection: whatever else the
+// server sends has to be a backend message.
+func (p *Projector) encRequest(kind string) {
+	if p.Proj != nil && p.Proj.Recv["*"] != nil && p.Proj.Recv["*"]["known"] {
+		if p.encSeen == nil {
+			p.encSeen = map[string]bool{}
+		}
+		if p.encSeen[kind] {
+			return
+		}
+		p.encSeen[kind] = true
+	}
+	p.sslWait++
 }
 
 func (p *Projector) bytes(b []byte) {
